@@ -19,7 +19,7 @@ T=/tmp/seed-$name; rm -rf $T; mkdir -p $T; cp -r /repo/src $T/src
 (cd $T && patch -p1 -s < $S/patch.diff) || { echo "$name NOAPPLY"; rm -rf $T; exit 3; }
 cd /verif; res=""
 for c in ${@:-$prop}; do
-  out=$(MQTT_SRC=$T/src ./check $c --tier quick 2>&1); rc=$?
+  out=$(VERIF_SCRATCH=$T/v MQTT_SRC=$T/src ./check $c --tier quick 2>&1); rc=$?
   echo "--- check $c rc=$rc"; echo "$out" | grep -v "^NOTE" | tail -4
   res="$res $c:$rc"
   clauses="$clauses$(echo "$out" | grep -o "C[0-9][0-9]\.[a-z_0-9]*" | sort | uniq -c | sort -rn | head -3 | awk '{printf " %s(x%s)", $2, $1}')"
